@@ -33,11 +33,12 @@ Proof. destruct c; reflexivity. Qed.
 (* ---------- per-record invariant ---------- *)
 Definition PInv (p : prec) : Prop :=
   (p_status p = StFunding -> p_votes p = []) /\
-  (p_votes p <> [] -> p_store p <> SFinalized -> p_goal p <= p_total p) /\
+  (p_votes p <> [] -> p_store p <> SFinalized -> p_extra p <> 8 -> p_goal p <= p_total p) /\
   (refundable (p_outcome p) = true -> p_votes p = []) /\
-  (p_store p = SFinalized -> p_indiv p = []) /\
+  (p_store p = SFinalized \/ p_extra p = 8 -> p_indiv p = []) /\
   (p_store p = SFinalized \/ p_store p = SFinFailed -> p_votes p <> []) /\
-  (p_store p = SActive -> p_outcome p = OInProgress).
+  (p_store p = SActive -> p_outcome p = OInProgress) /\
+  (p_store p = SActive -> p_extra p = 0).
 
 Definition Inv (s : state) : Prop := forall id p, g_props s !! id = Some p -> PInv p.
 
@@ -95,7 +96,8 @@ Proof.
   destruct (g_props s !! id) eqn:E; [discriminate|].
   destruct (bal s pr - amt <? 0); [discriminate|]. inversion H; subst; clear H.
   right. exists id. eexists. split; [reflexivity|]. rewrite E. split.
-  - unfold add_funds. simpl. unfold PInv; simpl. repeat split; intros; try done. destruct H; done.
+  - unfold add_funds. simpl. unfold PInv; simpl. repeat split; intros; try done;
+      try (match goal with Hx : _ \/ _ |- _ => destruct Hx; done end).
   - unfold add_funds, rank. simpl. lia.
 Qed.
 
@@ -113,6 +115,8 @@ Lemma af_total b p f a : p_total (add_funds b p f a) = p_total p + a.
 Proof. unfold add_funds. destruct (alookup f (p_indiv p)); reflexivity. Qed.
 Lemma af_indiv b p f a : p_indiv (add_funds b p f a) = aupd f a (p_indiv p).
 Proof. unfold add_funds. destruct (alookup f (p_indiv p)); reflexivity. Qed.
+Lemma af_extra b p f a : p_extra (add_funds b p f a) = p_extra p.
+Proof. unfold add_funds. destruct (alookup f (p_indiv p)); reflexivity. Qed.
 Lemma af_vdl b p f a : p_vdl (add_funds b p f a) = p_vdl p.
 Proof. unfold add_funds. destruct (alookup f (p_indiv p)); reflexivity. Qed.
 Lemma af_rank b p f a : rank (add_funds b p f a) = rank p.
@@ -120,12 +124,12 @@ Proof. unfold rank. rewrite af_store, af_status. reflexivity. Qed.
 
 Ltac pinv HP :=
   let H1 := fresh "H1" in let H2 := fresh "H2" in let H3 := fresh "H3" in
-  let H4 := fresh "H4" in let H5 := fresh "H5" in let H6 := fresh "H6" in
-  destruct HP as (H1 & H2 & H3 & H4 & H5 & H6); unfold PInv;
-  rewrite ?af_store, ?af_status, ?af_outcome, ?af_votes, ?af_goal, ?af_total, ?af_indiv; simpl;
+  let H4 := fresh "H4" in let H5 := fresh "H5" in let H6 := fresh "H6" in let H7 := fresh "H7" in
+  destruct HP as (H1 & H2 & H3 & H4 & H5 & H6 & H7); unfold PInv;
+  rewrite ?af_store, ?af_status, ?af_outcome, ?af_votes, ?af_goal, ?af_total, ?af_indiv, ?af_extra; simpl;
   repeat split; intros;
   try solve [ congruence | discriminate | lia | intuition congruence | intuition discriminate
-            | intuition lia | exfalso; intuition congruence
+            | intuition lia | exfalso; intuition congruence | exfalso; intuition lia
             | match goal with Ha : ?st = SActive, Hb : ?st = SActive -> ?oc = OInProgress |- _ =>
                 rewrite (Hb Ha) in *; simpl in *; discriminate end ].
 
@@ -211,6 +215,7 @@ Proof.
     inversion H; subst; clear H.
     right. exists id. eexists. split; [reflexivity|]. rewrite E. intros HP. split.
     + pinv HP. all: try (rewrite (H4 H) in El; discriminate).
+      all: try (match goal with Hx : _ \/ _ |- _ => rewrite (H4 Hx) in El; discriminate end).
       all: try (exfalso; apply H; auto).
     + unfold rank. simpl. lia.
   - destruct ((p_goal p <=? p_total p) || (g_h s <=? p_fdl p)) eqn:Ec; [discriminate|].
@@ -224,18 +229,24 @@ Proof.
     destruct (p_total p - amt <? 0); [discriminate|].
     right. exists id.
     assert (Hcommon : forall HP : PInv p,
-              p_votes p = [] /\ p_store p <> SFinalized /\ p_store p <> SFinFailed).
-    { intros (H1 & H2 & H3 & H4 & H5 & H6).
+              p_votes p = [] /\ p_store p <> SFinalized /\ p_store p <> SFinFailed /\ p_extra p <> 8).
+    { intros (H1 & H2 & H3 & H4 & H5 & H6 & H7).
       assert (Hnf : p_store p <> SFinalized).
-      { intros Hs. rewrite (H4 Hs) in El. discriminate. }
+      { intros Hs. rewrite (H4 (or_introl Hs)) in El. discriminate. }
+      assert (Hne8 : p_extra p <> 8).
+      { intros Hs. rewrite (H4 (or_intror Hs)) in El. discriminate. }
       assert (Hv : p_votes p = []).
       { destruct (p_votes p) eqn:Ev; [reflexivity|]. exfalso.
-        assert (p_goal p <= p_total p) by (apply H2; [done | exact Hnf]). lia. }
+        assert (p_goal p <= p_total p) by (apply H2; [done | exact Hnf | exact Hne8]). lia. }
       repeat split; auto. intros Hs. apply H5; auto. }
+    assert (Hfin : forall st : store, st <> SFinalized -> p_extra p <> 8 ->
+              SFailed = SFinalized \/ match st with SFinalized => 8 | SFinFailed => 16 | _ => p_extra p end = 8 -> False).
+    { intros st Hst Hx [Hd|Hd]; [discriminate|]. destruct st; try congruence; lia. }
     destruct (bool_decide (p_store p = SPassed)); inversion H; subst; clear H;
       (eexists; split; [reflexivity|]; rewrite E; intros HP;
-       destruct (Hcommon HP) as (Hv & Hnf & Hnff); split;
-       [ pinv HP | unfold rank; simpl; destruct (p_store p); try congruence; destruct (p_status p); lia ]).
+       destruct (Hcommon HP) as (Hv & Hnf & Hnff & Hne8); split;
+       [ pinv HP; try (exfalso; eapply (Hfin (p_store p)); eauto)
+       | unfold rank; simpl; destruct (p_store p); try congruence; destruct (p_status p); lia ]).
 Qed.
 
 Lemma filter_none {A} (P : A -> bool) (l : list A) : (forall x, P x = false) -> List.filter P l = [].
@@ -257,9 +268,10 @@ Local Opaque distribute.
 Lemma finalize_good : forall s e id s' ev, e_keep e = [] ->
   h_finalize s e id = Some (s', ev) -> good_update s s'.
 Proof.
-  intros s e id s' ev Hk H. unfold h_finalize in H.
+  intros s e id s' ev Hk H. unfold h_finalize, fin_move in H.
   destruct (g_props s !! id) as [p|] eqn:E; [|discriminate].
-  destruct (8 <=? p_extra p). { inversion H; subst. apply good_update_refl. }
+  destruct (8 <=? p_extra p) eqn:Ex. { inversion H; subst. apply good_update_refl. }
+  apply Z.leb_gt in Ex.
   destruct (p_store p) eqn:Es; try discriminate;
     try (inversion H; subst; apply good_update_refl).
   all: destruct (bool_decide (p_status p = StCompleted)) eqn:E2; simpl in H; [|discriminate].
@@ -272,8 +284,12 @@ Proof.
   all: right; exists id; eexists.
   all: (split; [ rewrite ?props_anom; simpl; rewrite ?Ed; try destruct (bool_decide (p_type p = TConfig)); reflexivity |]).
   all: rewrite E; intros HP; split;
-    [ pose proof (del_funds_indiv_nokeep e id (with_stage p SFinalized (p_status p) (p_outcome p)) Hk) as Hdel;
-      pinv HP; try (exfalso; intuition congruence)
+    [ destruct HP as (H1 & H2 & H3 & H4 & H5 & H6 & H7); unfold PInv;
+      rewrite ?(del_funds_indiv_nokeep _ _ _ Hk); unfold del_funds; simpl; rewrite ?Es;
+      repeat split; intros;
+      try solve [ congruence | discriminate | lia | intuition congruence | intuition discriminate
+                | exfalso; intuition congruence
+                | apply H2; [assumption | congruence | lia] ]
     | unfold rank, del_funds; simpl; rewrite ?Es; lia ].
 Qed.
 
@@ -458,9 +474,9 @@ Qed.
 Theorem config_event_sound : forall s e id s' ev id', h_finalize s e id = Some (s', ev) -> EvConfig id' ∈ ev ->
   id' = id /\ exists p, g_props s !! id = Some p /\ p_type p = TConfig /\
     (p_store p = SPassed \/ p_store p = SFailed) /\ p_extra p < 8 /\
-    tally (p_votes p) (p_pass p) = RPassed /\ rank_of s' id = 4%nat.
+    tally (p_votes p) (p_pass p) = RPassed /\ (p_store p = SPassed -> rank_of s' id = 4%nat).
 Proof.
-  intros s e id s' ev id' H Hin. unfold h_finalize in H.
+  intros s e id s' ev id' H Hin. unfold h_finalize, fin_move in H.
   destruct (g_props s !! id) as [p|] eqn:E; [|discriminate].
   destruct (8 <=? p_extra p) eqn:Ex. { injection H as _ <-. apply elem_of_nil in Hin. destruct Hin. }
   apply Z.leb_gt in Ex.
@@ -480,15 +496,16 @@ Proof.
   all: apply elem_of_cons in Hin; destruct Hin as [Hin|Hin];
        [| apply elem_of_list_singleton in Hin; discriminate].
   all: injection Hin as ->; split; [reflexivity|]; exists p; repeat split; auto.
-  all: unfold rank_of; rewrite ?props_anom; simpl; rewrite lookup_insert; reflexivity.
+  all: intros Hsp; try congruence; unfold rank_of; rewrite ?props_anom; simpl; rewrite lookup_insert; reflexivity.
 Qed.
 
 (* finalising a finalised proposal does nothing: no event, no state change *)
 Theorem finalize_terminal_noop : forall s e id p, g_props s !! id = Some p ->
-  p_store p = SFinalized \/ p_store p = SFinFailed -> h_finalize s e id = Some (s, []).
+  p_store p = SFinalized \/ p_store p = SFinFailed \/ 8 <= p_extra p -> h_finalize s e id = Some (s, []).
 Proof.
   intros s e id p E Hs. unfold h_finalize. rewrite E.
-  destruct (8 <=? p_extra p); [reflexivity|]. destruct Hs as [-> | ->]; reflexivity.
+  destruct (8 <=? p_extra p) eqn:Ex; [reflexivity|]. apply Z.leb_gt in Ex.
+  destruct Hs as [-> | [-> | Hx]]; [reflexivity | reflexivity | lia].
 Qed.
 
 Local Transparent distribute.
@@ -578,7 +595,7 @@ Definition ActInv (s : state) : Prop :=
   forall id p, g_props s !! id = Some p -> p_store p = SActive -> p_outcome p = OInProgress.
 
 Lemma Inv_ActInv s : Inv s -> ActInv s.
-Proof. intros HI id p Hp Ha. destruct (HI id p Hp) as (_ & _ & _ & _ & _ & H6). auto. Qed.
+Proof. intros HI id p Hp Ha. destruct (HI id p Hp) as (_ & _ & _ & _ & _ & H6 & _). auto. Qed.
 
 Lemma exp_update_sound s s' : ActInv s -> exp_update s s' -> exp_rel s s'.
 Proof.
@@ -694,7 +711,7 @@ Local Opaque distribute.
 
 Lemma finalize_exp : forall s e id s' ev, h_finalize s e id = Some (s', ev) -> exp_update s s'.
 Proof.
-  intros s e id s' ev H. unfold h_finalize in H.
+  intros s e id s' ev H. unfold h_finalize, fin_move in H.
   destruct (g_props s !! id) as [p|] eqn:E; [|discriminate].
   destruct (8 <=? p_extra p). { inversion H; subst. split; [reflexivity|]. left. reflexivity. }
   destruct (p_store p) eqn:Es; try discriminate;
@@ -763,7 +780,7 @@ Qed.
 
 Lemma finalize_qrel : forall s e id s' ev, h_finalize s e id = Some (s', ev) -> qrel s s'.
 Proof.
-  intros s e id s' ev H. unfold h_finalize in H.
+  intros s e id s' ev H. unfold h_finalize, fin_move in H.
   destruct (g_props s !! id) as [p|] eqn:E; [|discriminate].
   destruct (8 <=? p_extra p). { inversion H; subst. apply qrel_refl. }
   destruct (p_store p) eqn:Es; try discriminate;
@@ -779,7 +796,7 @@ Proof.
     [ rewrite ?h_anom; simpl; rewrite ?Edh; try destruct (bool_decide (p_type p = TConfig)); reflexivity
     | exact E
     | rewrite ?props_anom; simpl; rewrite ?Ed; try destruct (bool_decide (p_type p = TConfig)); reflexivity
-    | unfold del_funds; simpl; discriminate
+    | unfold del_funds; simpl; rewrite ?Es; discriminate
     | unfold del_funds; simpl; intros Ho; left; exact Ho ].
 Qed.
 
@@ -905,4 +922,20 @@ Proof.
   replace (cur - cur <? 0) with false by (symmetry; apply Z.ltb_ge; lia).
   replace (p_total p - cur <? 0) with false by (symmetry; apply Z.ltb_ge; lia).
   eexists. reflexivity.
+Qed.
+
+(* a configuration change is applied only for a proposal in the passed store — unless the proposal sits in the
+   failed store with votes that pass under its own percentage *)
+Theorem config_only_passed_partial : forall s e id s' ev id' p,
+  h_finalize s e id = Some (s', ev) -> EvConfig id' ∈ ev -> g_props s !! id = Some p ->
+  trig_failed_but_passing p = false ->
+  id' = id /\ p_store p = SPassed /\ p_outcome p = p_outcome p /\ rank_of s' id = 4%nat.
+Proof.
+  intros s e id s' ev id' p H Hin E Ht.
+  destruct (config_event_sound s e id s' ev id' H Hin) as (-> & q & Eq & Hty & Hst & Hx & Htal & Hr).
+  rewrite E in Eq. inversion Eq; subst q.
+  assert (Hp : p_store p = SPassed).
+  { destruct Hst as [Hs|Hs]; [exact Hs|]. exfalso. unfold trig_failed_but_passing in Ht.
+    rewrite (bool_decide_eq_true_2 _ Hs), (bool_decide_eq_true_2 _ Htal) in Ht. discriminate. }
+  repeat split; auto.
 Qed.
